@@ -207,8 +207,14 @@ CLAIMS = {
         "and a naive least-model oracle. Tie D: versions_base is re-translated from ascent_mir.rs on every run and proved equal to the model's versionsBase for all n "
         "(Props/TieD.lean versionsBase_eq). Plan level (Model/Plan.lean, Props/C01Plan.lean): the index look-ups on the columns chosen by the compiler, the "
         "nested loops of a simple join and the swapped copy of a reorderable rule enumerate the same environments as the filter semantics, for every rule "
-        "(index_selection_sound_complete, reordering_sound; guard_needed shows the reorderable flag is necessary).",
-   design_ref="DESIGN.md §8 C01, §3.1", note=ENGINE_NOTE),
+        "(index_selection_sound_complete, reordering_sound; guard_needed shows the reorderable flag is necessary). Physical level (Model/EnginePhys.lean, "
+        "Props/C01Phys.lean): the generated code as it really runs - a full index and one value-keyed hash index per column set, three versions of each inside an SCC, "
+        "update_indices, the head update through insert_if_not_present, the merges with their size-based swaps (C19's index models), plan-directed index_get / iter_all, "
+        "the 'some body relation is empty' guard and the len_estimate choice between the two copies of a reorderable simple join - computes exactly the least model "
+        "(runPhys_eq_leastModel; forward simulation onto the nondeterministic engine of Proofs/NDEngine.lean, which allows ANY enumeration of an iteration's head rows). "
+        "Its hypotheses (desugared, well-scoped rules; planOk) are decidable and evaluated by the driver on every generated program; every tie-B case is also run "
+        "through this model (`eng runp`).",
+   design_ref="DESIGN.md §8 C01, §3.1, §13.4", note=ENGINE_NOTE),
  "C05": dict(
    engine="tie-B-engine",
    technique="Lean 4 invariant proof (rows = previous rows ++ distinct new tuples) + one-winner race theorem + compiled-program multiplicity correspondence",
